@@ -950,7 +950,19 @@ def r10_13(ctx):
     ctx.floor(n, 2, "optional arguments handled by Status.update")
 
 
-RULES = [r10_1, r10_2, r10_3, r10_4, r10_5, r10_6, r10_7, r10_8, r10_9, r10_10, r10_11, r10_12, r10_13, r10_14]
+def r10_15(ctx):
+    from .c19 import r19_11
+    from .common import borrow
+    borrow(ctx, r19_11, "R19.11", "R10.15", " [every byte of the display reaches ONE stream: the proxy installed for a stream wraps that stream's own file, or a console on stderr draws its frames on stdout while its cursor codes went to stderr]")
+
+
+def r10_16(ctx):
+    from .c01 import r1_12
+    from .common import borrow
+    borrow(ctx, r1_12, "R1.12", "R10.16", " [a frame line wider than the terminal wraps: the recorded frame height undercounts the rows on screen and the next erase leaves remnants]")
+
+
+RULES = [r10_1, r10_2, r10_3, r10_4, r10_5, r10_6, r10_7, r10_8, r10_9, r10_10, r10_11, r10_12, r10_13, r10_14, r10_15, r10_16]
 
 
 def _xcheck(ctx):
